@@ -1,5 +1,5 @@
 CFG = dict(
-    gen=['Guards'],
+    gen=['Guards', 'ImportRules'],
     prop_file='Properties/C01.v',
     coq_extra=['Total/RunC01.v'],
     harness='c01',
@@ -13,6 +13,6 @@ CFG = dict(
 )
 TEXT = dict(
     level='Theorems in Coq over a stage model of Parser.Parse/collectSpecs/parseSpecs/main2: for every import closure and every behaviour (ok/error/panic) of the generated parser and of both listener walks, the guard structure of the CURRENT source (Gen/Guards.v, regenerated each run: which stages run under a recover, whether each stage error is tested and returned, the exit codes) never lets a panic out, maps every error to status 1 or 2, and yields a model only if every stage of every file succeeded; plus an exact, proved predictor of which field declarations make the listener panic (all primitives x size/array specs x numbers of any length). Tied to the code by compiling ~2 000 (quick) / ~20 000 (thorough) hostile inputs with the real parser in a worker subprocess - crash-family corpus, bounded-exhaustive field forms, token/line/byte mutants of the 422-file corpus, generated odd specs, import closures, random bytes, and the real binary for exit statuses - judged directly (never a panic, hang or zero status on error) and compared in Coq with the predictor and the pipeline model.',
-    note='Trusted: Coq kernel + vm_compute, the Guards translator, the harness. Not modelled: ANTLR runtime and generated parser (termination assumed, bounded by a deadline), reader, importers, lint/postProcess (assumed not to panic; monitored). The indentation-loop totality theorem lives with C03 (Front/Indent) and the import-collector termination theorem with C05.',
+    note='Trusted: Coq kernel + vm_compute, the Guards translator, the harness. Not modelled: ANTLR runtime and generated parser (termination assumed, bounded by a deadline), reader, importers, lint/postProcess (assumed not to panic; monitored). The two hand-written loops on the compile path are proved to end and re-exported here: C01_indent_loop_terminates / C01_lexer_filter_terminates (Front/Indent, built for C03) and C01_collector_terminates (Imports/Faults, built for C05/C06: every schedule, every fault set, every finite import graph).',
     technique='Coq proof over pipeline stage model + regenerated guard table + differential compile of hostile inputs',
 )
